@@ -279,23 +279,62 @@ def c20_sig(v):
 
 
 # ------------------------------------------------------------------ engine-level properties
-ES_INV = ("C01_Prefix C02_Order C03_OneClose C03_ClosedIsFinal C04_Registry C04_NoUnderflow C12_PollReleased C11_NoStuckPoll "
-          "C08_AtMostOnce C08_FailureKeepsSession")
+ES_INV = ("TypeOK C01_Prefix C01_NothingLost C01_NoStuckBuffer C02_Order C03_OneClose C03_ClosedIsFinal C03_NoSpuriousError C04_Registry C04_NoUnderflow "
+          "C12_PollReleased C11_NoStuckPoll C12_BufferedFirst C08_AtMostOnce C08_FailureKeepsSession C07_DeadlineArmed")
 
 
-def es_cfg(msgs, climsgs, polls, pings, feats, inv=ES_INV, dev="{}"):
+def es_cfg(msgs, climsgs, polls, pings, feats, inv=ES_INV, dev="{}", props=True):
     return ("SPECIFICATION Spec\nCONSTANTS Msgs = %s CliMsgs = %s MaxPolls = %d MaxPings = %d Features = %s Deviations = %s\n"
-            "VIEW view\nINVARIANTS %s\nCHECK_DEADLOCK FALSE\n" % (msgs, climsgs, polls, pings, feats, dev, inv))
+            "VIEW view\nINVARIANTS %s\n%sCHECK_DEADLOCK FALSE\n"
+            % (msgs, climsgs, polls, pings, feats, dev, inv, "PROPERTY C03_SilentAfterClose\n" if props and inv == ES_INV else ""))
 
 
+# feature sets: window = the flush listener window (buffer taken, not yet handed over) is a separate step;
+# closewin = the close event's listeners are a separate step; late = an upgrade packet may arrive on a closed session
 ES_FAMS = {
-    # family: (quick model config, thorough model config, simulate config)
-    "flow": (("{1,2,3}", "{7}", 3, 0, '{"upgrade"}'), ("{1,2,3}", "{7,8}", 5, 0, '{"upgrade"}')),
-    "life": (("{1,2}", "{7}", 3, 1, '{"close","peer","heartbeat","overlap"}'), ("{1,2,3}", "{7,8}", 4, 2, '{"close","peer","heartbeat","overlap"}')),
-    "upg": (("{1,2}", "{7}", 3, 1, '{"upgrade","close","peer","heartbeat"}'), ("{1,2,3}", "{7}", 4, 1, '{"upgrade","close","peer","heartbeat"}')),
-    "poll": (("{1,2}", "{7}", 4, 0, '{"overlap","peer","close"}'), ("{1,2,3}", "{7,8}", 5, 1, '{"overlap","peer","close","heartbeat"}')),
+    # family: (quick model config, thorough model config)
+    "flow": (("{1,2,3}", "{7}", 3, 0, '{"upgrade","window","dwindow"}'), ("{1,2,3}", "{7,8}", 5, 1, '{"upgrade","window","dwindow","heartbeat"}')),
+    "life": (("{1,2}", "{7}", 3, 1, '{"close","peer","heartbeat","overlap","closewin"}'),
+             ("{1,2,3}", "{7,8}", 4, 2, '{"close","peer","heartbeat","overlap","closewin","window","abort","ctimeout"}')),
+    "upg": (("{1,2}", "{7}", 3, 1, '{"upgrade","close","peer","heartbeat","window","late","closewin"}'),
+            ("{1,2,3}", "{7}", 4, 1, '{"upgrade","close","peer","heartbeat","window","late","closewin","abort"}')),
+    "poll": (("{1,2}", "{7}", 4, 0, '{"overlap","peer","close","abort","window","dwindow"}'),
+             ("{1,2,3}", "{7,8}", 5, 1, '{"overlap","peer","close","heartbeat","abort","window","closewin","ctimeout"}')),
 }
+# every deviation must make TLC find its invariant violated (the invariants are not vacuous, the model is sensitive)
+ES_DEVS = [
+    ("CloseRace", "C03_OneClose", '{"close","peer","heartbeat","closewin"}'),
+    ("PollVsClose", "C11_NoStuckPoll", '{"close","peer","closewin"}'),
+    ("StaleTransport\",\"CheckNoLock", "C01_NothingLost", '{"upgrade","window"}'),
+    ("LateClear", "C01_NothingLost", '{"window"}'),
+    ("FlushForgets", "C01_NoStuckBuffer", '{"dwindow"}'),
+    ("DrainNoRecheck", "C12_BufferedFirst", '{"close","window"}'),
+    ("UpgTailEager", "C12_BufferedFirst", '{"upgrade","close","window"}'),
+    ("UpgradeOnClosed", "C03_SilentAfterClose", '{"upgrade","close","peer","late","closewin"}'),
+    ("CheckNoLock", "C03_NoSpuriousError", '{"upgrade","window"}'),
+    ("WsCloseCutsSend", "C12_BufferedFirst", '{"upgrade","close","window"}'),
+    ("CloseSkipsTaken", "C12_BufferedFirst", '{"close","window"}'),
+]
 MON_EIO_CFG = 'SPECIFICATION Spec\nCONSTANT TraceFile = "trace.ndjson"\nCHECK_DEADLOCK FALSE\n'
+
+
+def es_sensitivity(ctx):
+    """Deviations: the behaviours the code had (or a regression would bring back) must violate their invariant in the model."""
+    out = {}
+    cex = []
+    for dev, inv, feats in ES_DEVS:
+        isprop = inv == "C03_SilentAfterClose"
+        cfg = es_cfg("{1,2}", "{7}", 3, 1, feats, inv="TypeOK" if isprop else inv, dev='{"%s"}' % dev, props=False)
+        if isprop:
+            cfg = cfg.replace("CHECK_DEADLOCK", "PROPERTY C03_SilentAfterClose\nCHECK_DEADLOCK")
+        out[dev] = M.tlc_expect_violation(ctx, "EioSession", cfg, "dev_" + dev.replace('","', "_"), inv)
+        if out[dev] and ctx.last_counterexample:
+            cex.append(ctx.last_counterexample)
+    ctx.extra["model_deviations_detected"] = out
+    ctx.devbehs = cex
+    bad = [d for d, ok in out.items() if not ok]
+    if bad:
+        raise M.Inconclusive("model is not sensitive to deviation(s) %s" % bad)
 
 
 def eng_run(ctx, fams, nrandom_q=60, nrandom_t=900, extra_fams=()):
@@ -303,13 +342,16 @@ def eng_run(ctx, fams, nrandom_q=60, nrandom_t=900, extra_fams=()):
     q = ctx.quick
     all_evs = []
     viols = []
+    if fams:
+        es_sensitivity(ctx)
     for fam in fams:
         qc, tc = ES_FAMS[fam]
         c = qc if q else tc
-        M.tlc_model(ctx, "EioSession", es_cfg(*c), "es_" + fam, timeout=1500, coverage=not q)
-        # the repaired deviations must still be what the old code did: sanity of the model (expected to be violated)
+        M.tlc_model(ctx, "EioSession", es_cfg(*c), "es_" + fam, timeout=2400, coverage=not q)
         behs = M.tlc_simulate(ctx, "EioSession", es_cfg(*c, inv="Emit").replace("VIEW view\n", ""), "sim_" + fam,
-                              num=4 if q else 40, depth=28, seed=ctx.seed, cap=80 if q else 1200)
+                              num=6 if q else 60, depth=32, seed=ctx.seed, cap=120 if q else 2500)
+        # the counterexamples of the deviations are schedules on which a regression would show: replay them as well
+        behs = list(getattr(ctx, "devbehs", [])) + behs
         ctx.extra["behaviours_replayed"] = ctx.extra.get("behaviours_replayed", 0) + len(behs)
         trace, summ = M.go_family(ctx, fam, behaviours=behs, nrandom=nrandom_q if q else nrandom_t, timeout=3000)
         v, lines = M.tlc_trace(ctx, "EioMon", MON_EIO_CFG, fam, trace, timeout=3000)
@@ -600,3 +642,30 @@ def c10(ctx):
                                     "WebTransport frames are bounded at the framing layer (C15)"]
     return M.finish(ctx, rule="one trace = a server with limit 100/1000/5000 receiving polling bodies (declared and unknown length, single and multi-packet) and "
                     "websocket frames (direct and upgraded sessions) of limit-1, limit, limit+1, 10x and 300x the limit, with a canary session", evs=evs)
+
+
+# ------------------------------------------------------------------ development aid (not a registered check)
+@prop("XDEV")
+def xdev(ctx):
+    """XDEV_DEVS / XDEV_FEATS / XDEV_INV: take TLC's counterexample of an invariant under the given Deviations and replay it
+    into the real server; prints the monitor's verdicts. Used to reproduce on the code what the model predicts.
+    Run with VERIF_EVID_DIR and VERIF_REPLAYS_DIR pointing to scratch directories."""
+    devs, feats, inv = os.environ["XDEV_DEVS"], os.environ["XDEV_FEATS"], os.environ["XDEV_INV"]
+    isprop = inv == "C03_SilentAfterClose"
+    cfg = es_cfg(os.environ.get("XDEV_MSGS", "{1,2}"), "{7}", 3, 1, feats, inv="TypeOK" if isprop else inv, dev=devs, props=False)
+    if isprop:
+        cfg = cfg.replace("CHECK_DEADLOCK", "PROPERTY C03_SilentAfterClose\nCHECK_DEADLOCK")
+    ok = M.tlc_expect_violation(ctx, "EioSession", cfg, "xdev", inv)
+    print("model violated:", ok, json.dumps(ctx.last_counterexample))
+    if not ok:
+        return 2
+    trace, summ = M.go_family(ctx, "flow", behaviours=[ctx.last_counterexample], nrandom=0)
+    v, lines = M.tlc_trace(ctx, "EioMon", MON_EIO_CFG, "xdev", trace)
+    evs = M.read_trace(trace)
+    for x in v:
+        print("BREACH", json.dumps(x))
+    if os.environ.get("XDEV_SHOW"):
+        for e in evs:
+            print(json.dumps(e)[:300])
+    M.classify(ctx, v)
+    return M.finish(ctx, rule="xdev", evs=evs)
